@@ -823,3 +823,71 @@ def check_none_default_tests(run, funcs, rule='R10n'):
             if p not in flagged:
                 run.holds(rule, f.key, 'default None of %s' % p, 'never tested for truth, only against None', f=f, nontrivial=False)
     return n
+
+
+# ---------------------------------------------------------------------------------------------------------------- R10c
+def check_sibling_options(run, f, rule='R10c'):
+    """Sibling calls agree on the options they forward.  If a function forwards its own option parameter p to a callee g as
+    g(..., p=p) at one call site, every other call of the same callee g in the function forwards p as well: the call sites are the
+    arms of one case split (one value / many values, vector / matrix / list argument), and an arm that drops the option answers in
+    the callee's default (radians, zyx, no flip, checked) whatever the caller asked for -- the forms stop being interchangeable.
+    Only call sites in different arms of one if/else (or conditional expression) are siblings: two calls on one path are two
+    different uses (a tolerance applied to the whole vector and not to a part of it is a choice, not an omission)."""
+    fi = FuncInfo.of(f)
+    arms = {}
+
+    def walk(n, chain):
+        for fld, val in ast.iter_fields(n):
+            vals = val if isinstance(val, list) else [val]
+            for c in vals:
+                if not isinstance(c, ast.AST):
+                    continue
+                if isinstance(c, (ast.FunctionDef, ast.AsyncFunctionDef, ast.ClassDef)) and c is not f.node:
+                    continue
+                ch = chain
+                if isinstance(n, (ast.If, ast.IfExp)) and fld in ('body', 'orelse'):
+                    ch = chain + ((id(n), fld),)
+                if isinstance(c, ast.Call):
+                    arms[id(c)] = ch
+                walk(c, ch)
+    walk(f.node, ())
+
+    def exclusive(a, b):
+        ca, cb = dict(arms.get(id(a), ())), dict(arms.get(id(b), ()))
+        return any(k in cb and cb[k] != v for k, v in ca.items())
+    # options that change the answer for VALID input; check / tol only move the boundary of what is rejected, and an arm that
+    # validates although the caller waived it still computes the same value
+    opts = [p for p in f.allparams if p in OPTION_NAMES and p != f.selfname and p not in ('check', 'tol', 't')]
+    if not opts:
+        return 0
+    calls = {}
+    for x in own_walk(f.node):
+        if isinstance(x, ast.Call):
+            nm = cname(fi, x)
+            if not nm:
+                continue
+            calls.setdefault(nm, []).append(x)
+    n = 0
+    for nm, cs in calls.items():
+        if len(cs) < 2:
+            continue
+        for p in opts:
+            def fwd(c):
+                return any(k.arg == p and isinstance(k.value, ast.Name) and k.value.id == p for k in c.keywords) or \
+                    any(k.arg is None for k in c.keywords)
+            def mentions(c):
+                return any(k.arg == p for k in c.keywords) or any(isinstance(a, ast.Name) and a.id == p for a in c.args)
+            yes = [c for c in cs if fwd(c)]
+            no = [c for c in cs if not fwd(c) and not mentions(c) and any(exclusive(c, y) for y in yes)]
+            if not yes:
+                continue
+            n += 1
+            if no:
+                c = no[0]
+                run.violation(rule, f.key, '%s(.., %s=%s) at every call' % (nm.split('.')[-1], p, p),
+                              'option %r is forwarded to %s at line %d but not in the sibling call %s: that arm answers in the callee\'s '
+                              'default whatever the caller asked for' % (p, nm.split('.')[-1], yes[0].lineno, src(c, 60)), f=f, node=c)
+            else:
+                run.holds(rule, f.key, '%s(.., %s=%s) at every call' % (nm.split('.')[-1], p, p),
+                          '%d sibling calls all forward the option' % len(yes), f=f)
+    return n
